@@ -221,6 +221,7 @@ struct C15 : Scenario {
 			for (auto &op : t.ops) if (op.kind == "extract") op.arg = (nt == 1 && k == 0 && op.arg == 1) ? 1 : 0;
 			p.tasks.push_back(t);
 		}
+		if (rng.chance(1, 3)) p.seti("twice", 1);
 		if (nt > 1) {
 			p.seti("sched_seed", (int64_t) rng.below(1u << 30));
 			p.seti("bias", (int64_t) rng.below(3));
@@ -273,6 +274,37 @@ struct C15 : Scenario {
 			trace_u64(sh.h);
 		}
 		g_sim.fs = nullptr;
+		// reader independence, directly: the same histories once more, one reader after the other on a fresh
+		// filesystem, must observe exactly what they observed the first time (interleaved or not)
+		if (p.geti("twice", 0)) {
+			SimFS fs2;
+			Rng clockrng2(p.seed, 1500, p.run);
+			setup_fs(fs2, p, &clockrng2);
+			g_sim.fs = &fs2;
+			bool tr = g_sim.tracing;
+			g_sim.tracing = false;
+			for (size_t k = 0; k < p.tasks.size() && res.ok; ++k) {
+				int err;
+				fs2.sys_chdir("/w/t0", err);
+				DriveOut d2 = drive_reader(p.tasks[k], a.bytes, o);
+				if (d2.budget || outs[k].budget) break;
+				const DriveOut &d1 = outs[k];
+				size_t n = std::min(d1.obs.size(), d2.obs.size());
+				if (d1.obs.size() != d2.obs.size())
+					res.fail("C15.reader_independence", "independence:count", strf("reader %zu made %zu observations when run with the others and %zu when run alone afterwards", k, d1.obs.size(), d2.obs.size()));
+				for (size_t i = 0; i < n && res.ok; ++i) {
+					const Obs &x = d1.obs[i], &y = d2.obs[i];
+					bool same = x.kind == y.kind && x.hdr == y.hdr && x.data == y.data && x.result == y.result && x.post_type == y.post_type && x.post_data == y.post_data;
+					if (!same)
+						res.fail("C15.reader_independence", "independence:" + x.kind,
+						         strf("reader %zu/%zu op %zu (%s): result differs between the first execution (%s) and a second, solitary execution of the same history",
+						              k, p.tasks.size(), i, x.kind.c_str(), p.tasks.size() > 1 ? "interleaved with other readers" : "alone"));
+				}
+			}
+			g_sim.tracing = tr;
+			g_sim.fs = nullptr;
+			count("probe.second_pass_compared");
+		}
 		int represented = 0, touched = 0;
 		for (size_t k = 0; k < p.tasks.size() && res.ok; ++k) {
 			if (outs[k].budget) { res.fail("C15.budget", "budget", strf("reader %zu: a call did not return within the step budget (%s)", k, outs[k].budget_api.c_str())); break; }
